@@ -75,6 +75,8 @@ def gen_plan(rng, tier, config, opts):
             g = rng.choice(GENS[t])
             if t in ('fp2', 'fp12') and fmt == 1:
                 g = 'cyc'           # only norm-one / cyclotomic elements have a packed form
+                if t == 'fp2' and rng.chance(0.2):
+                    g = 'one'       # ... of which 1 is the one whose second coordinate is zero (its sign bit has one valid value)
                 if not pc and t == 'fp12':
                     fmt, g = 0, 'rand'   # the extension-field constants are those of the pairing tower
             if t == 'fp8':
